@@ -389,6 +389,17 @@ def impl_lines_d(case, res):
 FS_LABELS = ("h5", "listdir", "exists", "rename", "remove", "iofault")
 
 
+def gen_ublock_case(rng, max_calls=4, allow_fail=True):
+    """block executor where one call has an argument that cannot be pickled: the request fails in
+    the worker thread before it reaches the process (judged by the oracles only)"""
+    c = gen_block_case(rng, max_calls=max(1, max_calls), allow_fail=False)
+    while not c["calls"]:
+        c = gen_block_case(rng, max_calls=max(1, max_calls), allow_fail=False)
+    c["calls"][rng.randrange(len(c["calls"]))]["unpicklable"] = True
+    c["iofault_fired"] = True          # counts as a failing call; no lockstep
+    return c
+
+
 def gen_cblock_case(rng, max_calls=4, allow_fail=True):
     c = gen_block_case(rng, max_calls=max_calls, allow_fail=allow_fail)
     c["cache"] = True
